@@ -19,6 +19,7 @@ func profiles() map[string]Profile {
 	m := map[string]Profile{}
 	p := base
 	p.Name = "C01"
+	p.HugeVals = true
 	m["C01"] = p
 
 	p = base
@@ -36,7 +37,7 @@ func profiles() map[string]Profile {
 	p.Name = "C02"
 	p.MemOnly = 0
 	p.Flush, p.Reopen, p.SetColl, p.RmColl, p.Image, p.Dump, p.Revert = 10, 10, 3, 2, 3, 4, 2
-	p.BigVals, p.LongNames, p.BadNames = true, true, true
+	p.BigVals, p.LongNames, p.BadNames, p.HugeVals, p.MjsonBeforeFlush = true, true, true, true, true
 	m["C02"] = p
 
 	p = base
@@ -129,6 +130,7 @@ func profiles() map[string]Profile {
 	p.MemOnly = 0
 	p.Flush, p.Image, p.Copy, p.BigVals, p.SetColl, p.RmColl, p.MaxColls, p.Fill = 12, 8, 3, true, 4, 2, 6, 2
 	p.FlushExtra = []string{"image %F", "imagehex %F", "opendump %F"}
+	p.MjsonBeforeFlush, p.HugeVals = true, true
 	m["C14"] = p
 
 	p = base
@@ -137,6 +139,7 @@ func profiles() map[string]Profile {
 	p.Flush, p.Evict, p.Reopen, p.Visit, p.GetI, p.Min, p.Max, p.Exist, p.Len, p.Drop = 10, 8, 10, 8, 10, 5, 5, 5, 2, 30
 	p.Snap, p.SnapClose, p.BigVals, p.Blocks, p.Iter = 2, 1, true, 4, 4
 	p.KeyOnlyReads = true
+	p.TinyIncr = 40
 	m["C19"] = p
 
 	pl := p
